@@ -34,7 +34,8 @@ def run_cfg(chk, facts, cfg):
     def member(kinds, env):
         return den('A', kinds[0], env)[0] <= env['x'] <= den('A', kinds[0], env)[1]
     no_overrides(chk, PID, facts, sfx, [m.path], 'interval predicates and the range view',
-                 checkers={('RangeBounds', 'contains'): lambda fnrec: table_check(chk, PID, facts, m, fnrec, 'RangeBounds::contains(override)' + sfx, ['A'], ['x'], member)}, traits=('RangeBounds',))
+                 checkers={('RangeBounds', 'contains'): lambda fnrec: table_check(chk, PID, facts, m, fnrec, 'RangeBounds::contains(override)' + sfx, ['A'], ['x'], member)}, traits=('RangeBounds',),
+                 shadow_known=('contains',))   # the inherent `contains` is decided below by the same table
 
     f = facts.inherent(m.path, 'contains')
     if chk.anchor('Interval::contains' + sfx, f):
